@@ -71,12 +71,13 @@ pub fn deserialize_eps_zero<'a, T: ZeroCopy>(
     backend: &mut SliceWithPos<'a>,
 ) -> deser::Result<&'a T> {
     let bytes = core::mem::size_of::<T>();
+    // The serializer aligns the stream also for zero-sized types.
+    backend.align::<T>()?;
     if bytes == 0 {
         // SAFETY: zero-sized types are not deserialized, and any non-null,
         // aligned pointer is a valid reference to a zero-sized type.
         return Ok(unsafe { core::ptr::NonNull::<T>::dangling().as_ref() });
     }
-    backend.align::<T>()?;
     let (pre, data, after) = unsafe { backend.data[..bytes].align_to::<T>() };
     debug_assert!(pre.is_empty());
     debug_assert!(after.is_empty());
